@@ -1,2 +1,191 @@
-(* C14 - property theorems (skeleton; filled in below). *)
-From VF.C14 Require Import Model.
+(* C14 - property theorems only.  Each is closed by [exact] of a lemma of
+   RlpProofs.v / TypedProofs.v / ModelProofs.v / Bridge.v and followed by
+   Print Assumptions; one non-vacuity Example per theorem.
+
+   Reading guide.  [encode]/[decode] are the RLP item codec; a Go type is a
+   [schema]; [encode_t s]/[decode_t s] are rlp.EncodeToBytes / rlp.DecodeBytes
+   for a type with schema s (including the custom EncodeRLP/DecodeRLP pairs of
+   the node).  [wf_schema] holds of every schema regenerated from /repo
+   (C14_real_schemas_wf).  [good_t s v] = the value holds no nil where a plain
+   pointer is expected and is a value its own custom decoder gives back.
+   [lenient_bytes] = decoding goes through one of the places where the Go
+   decoder accepts a second wire form (rlp:"nil" pointers: both empty kinds;
+   Validator.Expelled; ValidatorIndex; EvidenceDoubleSign). *)
+From VF.C14 Require Import Rlp RlpProofs Typed TypedProofs Model ModelProofs Bridge.
+From VF.gen Require Import C14Schemas.
+Local Open Scope N_scope.
+
+(* ---- 1. the item codec ---------------------------------------------------------- *)
+(* decoding the encoding of any item (of bytes, below the uint64 size limit)
+   gives the item back *)
+Theorem C14_item_decode_encode :
+  forall i, item_ok i = true -> fits i = true -> decode (encode i) = Some i.
+Proof. exact decode_encode. Qed.
+Print Assumptions C14_item_decode_encode.
+
+(* any byte string the strict decoder accepts is exactly the encoding of what
+   it decoded: accepted implies canonical, no trailing bytes *)
+Theorem C14_item_encode_decode :
+  forall b i, decode b = Some i -> encode i = b /\ item_ok i = true /\ fits i = true.
+Proof. exact encode_decode. Qed.
+Print Assumptions C14_item_encode_decode.
+
+(* one encoding per item (hence one hash), and no encoding is a prefix of another *)
+Theorem C14_item_encode_injective :
+  forall i j, item_ok i = true -> fits i = true -> item_ok j = true -> fits j = true ->
+    encode i = encode j -> i = j.
+Proof. exact encode_injective. Qed.
+Print Assumptions C14_item_encode_injective.
+
+Theorem C14_item_prefix_free :
+  forall i j r s, item_ok i = true -> fits i = true -> item_ok j = true -> fits j = true ->
+    encode i ++ r = encode j ++ s -> i = j /\ r = s.
+Proof. exact encode_prefix_free. Qed.
+Print Assumptions C14_item_prefix_free.
+
+(* ---- 2. typed values: decode (encode v) = v --------------------------------------- *)
+Theorem C14_roundtrip :
+  forall s v it, wf_schema s = true -> good_t s v = true ->
+    to_item cenc s v = Some it -> item_ok it = true -> fits it = true ->
+    encode_t s v = Some (encode it) /\ decode_t s (encode it) = Some v.
+Proof. exact (roundtrip cenc cdec). Qed.
+Print Assumptions C14_roundtrip.
+
+(* equal encodings (equal hashes' pre-images) come from equal values *)
+Theorem C14_one_encoding :
+  forall s v1 v2 i1 i2, wf_schema s = true -> good_t s v1 = true -> good_t s v2 = true ->
+    to_item cenc s v1 = Some i1 -> to_item cenc s v2 = Some i2 ->
+    item_ok i1 = true -> fits i1 = true -> item_ok i2 = true -> fits i2 = true ->
+    encode i1 = encode i2 -> v1 = v2.
+Proof. exact (typed_injective cenc cdec). Qed.
+Print Assumptions C14_one_encoding.
+
+(* ---- 3. accepted implies canonical -------------------------------------------------- *)
+(* full statement over the regenerated types; REFUTED by the unchanged code *)
+Definition C14_accept_canonical_full : Prop := canonical_full.
+
+Theorem C14_accept_canonical_refuted : ~ C14_accept_canonical_full.
+Proof. exact canonical_full_refuted. Qed.
+Print Assumptions C14_accept_canonical_refuted.
+
+(* outside the listed lenient places every accepted byte string re-encodes to itself *)
+Theorem C14_accept_canonical_holds_outside :
+  forall s b v, wf_schema s = true -> decode_t s b = Some v ->
+    lenient_bytes cenc cdec s b = false -> encode_t s v = Some b.
+Proof. exact (accept_canonical cenc cdec). Qed.
+Print Assumptions C14_accept_canonical_holds_outside.
+
+(* types without an rlp:"nil" pointer and without one of the three normalising
+   custom decoders have no lenient place at all *)
+Theorem C14_accept_canonical_strict :
+  forall s b v, wf_schema s = true -> strict s = true ->
+    decode_t s b = Some v -> encode_t s v = Some b.
+Proof. exact accept_canonical_strict. Qed.
+Print Assumptions C14_accept_canonical_strict.
+
+(* ... which are all regenerated types except the ten listed in [lenient_types] *)
+Theorem C14_real_types_canonical :
+  forall ty s b v, In (ty, s) all_schemas -> existsb (N.eqb ty) lenient_types = false ->
+    decode_t s b = Some v -> encode_t s v = Some b.
+Proof. exact real_strict_canonical. Qed.
+Print Assumptions C14_real_types_canonical.
+
+(* the lenient places, characterised: for an rlp:"nil" byte array exactly the
+   empty list; for a Validator exactly an Expelled byte other than 0 and 1; a
+   strictly increasing address list is the one accepted form of a ValidatorIndex *)
+Theorem C14_finding_nil_kind :
+  forall n it, 1 <= n -> (lenient_t (SOpt (SArr n)) it = true <-> it = Lst []).
+Proof. exact opt_arr_lenient. Qed.
+Print Assumptions C14_finding_nil_kind.
+
+Theorem C14_finding_expelled :
+  forall a e v, cdec id_Validator (VList [a; VNum e]) = Some v ->
+    (cenc id_Validator v = Some (VList [a; VNum e]) <-> e = 0 \/ e = 1).
+Proof. exact validator_lenient. Qed.
+Print Assumptions C14_finding_expelled.
+
+Theorem C14_finding_index_sorted_partial :
+  forall l, sorted_strict l = true ->
+    cdec id_ValidatorIndex (VList (map VBytes l)) = Some (VList (map VBytes l)) /\
+    cenc id_ValidatorIndex (VList (map VBytes l)) = Some (VList (map VBytes l)).
+Proof. exact validator_index_sorted_canonical. Qed.
+Print Assumptions C14_finding_index_sorted_partial.
+(* partial: the converse (an accepted list that is not strictly increasing is
+   re-written differently) and the corresponding statement for
+   EvidenceDoubleSign are exhibited by witnesses (Bridge.v) but not proved in
+   general. *)
+
+(* ---- 4. hostile bytes: the specification decoder is total and linear ------------------ *)
+(* [decode] is a total Coq function (no exception, no divergence) and what it
+   builds is at most twice the input.  PARTIAL with respect to the property:
+   panic-freedom and allocation of the Go reflection decoder are runtime facts
+   outside the model; they are covered by the hostile-bytes campaign of the
+   harness (recover + allocation bound), not by this theorem. *)
+Theorem C14_decoder_total_and_linear_partial :
+  forall b, (exists i, decode b = Some i /\ item_size i <= 2 * len b) \/ decode b = None.
+Proof.
+  exact (fun b => match decode b as o return decode b = o -> _ with
+                  | Some i => fun H => or_introl (ex_intro _ i (conj H (decode_size_bound b i H)))
+                  | None => fun H => or_intror H
+                  end eq_refl).
+Qed.
+Print Assumptions C14_decoder_total_and_linear_partial.
+
+(* ---- 5. bridge: the regenerated schemas ------------------------------------------------ *)
+Theorem C14_real_schemas_wf : forall ty s, In (ty, s) all_schemas -> wf_schema s = true.
+Proof. exact real_schemas_wf. Qed.
+Print Assumptions C14_real_schemas_wf.
+
+Theorem C14_real_lenient_types_exact :
+  map fst (filter (fun p => negb (strict (snd p))) all_schemas) = lenient_types.
+Proof. exact lenient_types_exact. Qed.
+Print Assumptions C14_real_lenient_types_exact.
+
+(* ---- non-vacuity ------------------------------------------------------------------------- *)
+Definition ex_item : item := Lst [Str [1]; Str [200]; Str []; Lst [Str (repeat 7 60)]].
+Example C14_nonvacuous_item :
+  item_ok ex_item = true /\ fits ex_item = true /\
+  decode (encode ex_item) = Some ex_item /\ decode [129; 5] = None /\ decode [184; 1; 200] = None.
+Proof. repeat split; vm_compute; reflexivity. Qed.
+Print Assumptions C14_nonvacuous_item.
+
+(* a signed value transfer: schema from /repo, concrete value *)
+Definition ex_tx : value :=
+  VList [VNum 7; VNum 1000000000; VNum 21000; VBytes (repeat 17 20); VNum (2 ^ 70);
+         VBytes [1; 2; 3]; VNum 37; VNum (2 ^ 255 + 5); VNum 12345].
+Example C14_nonvacuous_roundtrip :
+  wf_schema S_types_Transaction = true /\ good_t S_types_Transaction ex_tx = true /\
+  exists it, to_item cenc S_types_Transaction ex_tx = Some it /\ item_ok it = true /\ fits it = true.
+Proof.
+  split; [vm_compute; reflexivity|]. split; [vm_compute; reflexivity|].
+  eexists. split; [vm_compute; reflexivity|]. split; vm_compute; reflexivity.
+Qed.
+Print Assumptions C14_nonvacuous_roundtrip.
+
+(* accepted, not lenient (hypotheses of holds_outside) - and the lenient witness is seen as such *)
+Example C14_nonvacuous_holds_outside :
+  (exists v, decode_t S_types_Transaction w_tx_re = Some v) /\
+  lenient_bytes cenc cdec S_types_Transaction w_tx_re = false /\
+  lenient_bytes cenc cdec S_types_Transaction w_tx = true /\
+  lenient_bytes cenc cdec S_state_Validator w_validator = true /\
+  lenient_bytes cenc cdec S_state_ValidatorIndex w_index = true /\
+  lenient_bytes cenc cdec S_staking_EvidenceDoubleSign w_evidence = true.
+Proof. split; [eexists; vm_compute; reflexivity|]. repeat split; vm_compute; reflexivity. Qed.
+Print Assumptions C14_nonvacuous_holds_outside.
+
+(* a strict regenerated type that accepts something: the staking message *)
+Example C14_nonvacuous_strict :
+  In (26, S_staking_Message) all_schemas /\ existsb (N.eqb 26) lenient_types = false /\
+  strict S_staking_Message = true /\
+  decode_t S_staking_Message [194; 1; 128] = Some (VList [VNum 1; VBytes []]) /\
+  strict S_types_Header = true /\ strict S_ucon_UconValidators = true.
+Proof.
+  split; [unfold all_schemas; do 26 right; left; reflexivity|]. repeat split; vm_compute; reflexivity.
+Qed.
+Print Assumptions C14_nonvacuous_strict.
+
+Example C14_nonvacuous_findings :
+  (exists v, cdec id_Validator (VList [VNil; VNum 5]) = Some v) /\
+  sorted_strict [[1; 2]; [1; 3]; [2]] = true /\ lenient_t (SOpt (SArr 20)) (Lst []) = true.
+Proof. split; [eexists; reflexivity|]. split; vm_compute; reflexivity. Qed.
+Print Assumptions C14_nonvacuous_findings.
